@@ -248,6 +248,7 @@ class Wtp:
     __slots__ = (
         "db_path",  # Database path
         "db_conn",  # Database connection
+        "db_is_temp",  # True if create_db() made up the database file itself
         "cookies",  # Mapping from magic cookie -> expansion data
         "debugs",  # List of debug messages (cleared for each new page)
         "errors",  # List of error messages (cleared for each new page)
@@ -388,6 +389,9 @@ class Wtp:
     def create_db(self) -> None:
         from .wikidata import init_wikidata_cache
 
+        # Only a database file that this context made up itself is removed
+        # again by close_db_conn(); a named one may be shared.
+        self.db_is_temp = self.db_path is None
         if self.db_path is None:
             temp_file = tempfile.NamedTemporaryFile(
                 prefix="wikitextprocessor_tempdb", delete=False
@@ -459,7 +463,7 @@ class Wtp:
         assert self.db_path
         self.db_conn.commit()
         self.db_conn.close()
-        if self.db_path.parent.samefile(Path(tempfile.gettempdir())):
+        if self.db_is_temp:
             for path in self.db_path.parent.glob(self.db_path.name + "*"):
                 # also remove SQLite -wal and -shm file
                 path.unlink(True)
